@@ -96,12 +96,22 @@ func runE2E(r *Report, known []Finding, sp e2eSpec) {
 				var local []e2eDis
 				nontriv := 0
 				nhp := nh
+				ctxPairs := []string{" a", "- 9", "a ", "ab", "  ", "a\n", "\na", "_-"}
 				if j.i < len(sp.probes) {
-					nhp = nh + 24 // probes also meet inputs stretched across the internal budgets and windows, in systematic variants
+					// probes also meet inputs stretched across the internal budgets and windows, in systematic variants, and a sampled
+					// match behind every combination of (word / non-word) x (word / non-word) context bytes: the byte before a candidate
+					// and the byte before THAT decide assertions and start states
+					nhp = nh + 24 + len(ctxPairs)
 				}
 				for k := 0; k < nhp; k++ {
 					h := GenHaystack(j.r, ast, false)
-					if k >= nh {
+					if k >= nh+24 {
+						b := 40
+						h = sampleMatch(j.r, ast, []byte(ctxPairs[k-nh-24]), &b)
+						if j.r.Bool() {
+							h = append(h, ' ')
+						}
+					} else if k >= nh {
 						v := k - nh
 						if sh := GenStretchedVariant(j.r, ast, v%3, v%6 >= 3 && v%12 < 6); sh != nil {
 							h = sh
